@@ -44,11 +44,13 @@ try:
 finally:
     sh("git -C /repo worktree remove --force %s" % wt)
     shutil.rmtree(wt, ignore_errors=True)
+    shutil.rmtree(wt + ".vpout", ignore_errors=True)
 if "--adopt" in rest and res.get("applies") and res.get("demo_clean") == 0 and res.get("demo_patched", 0) != 0 and res.get("suite_ok", True):
     dst = "/verif/seeded/" + name
     os.makedirs(dst, exist_ok=True)
-    shutil.copy(os.path.join(seed, "patch.diff"), dst)
-    shutil.copy(demo, dst)
+    if os.path.abspath(seed) != os.path.abspath(dst):
+        shutil.copy(os.path.join(seed, "patch.diff"), dst)
+        shutil.copy(demo, dst)
     notes = {}
     if os.path.exists(os.path.join(seed, "notes.json")):
         try:
